@@ -1,8 +1,9 @@
 use super::cursor::{PublishedCursor, PublishedCursorReader, RewindableCursor};
-use std::{
-    cmp::max,
-    sync::atomic::{AtomicBool, AtomicUsize, Ordering},
-};
+#[cfg(grevm_verif)]
+use crate::verif::atomic::{AtomicBool, AtomicUsize, Ordering};
+use std::cmp::max;
+#[cfg(not(grevm_verif))]
+use std::sync::atomic::{AtomicBool, AtomicUsize, Ordering};
 
 #[derive(Debug)]
 struct ExecutionFrontier {
@@ -80,7 +81,7 @@ impl ExecutionFrontier {
             crate::verif::p2("fr_cur_flag", frontier as i64, 1);
             self.advance(frontier);
             #[cfg(grevm_verif)]
-            crate::verif::p1("fr_cur_ret", self.frontier.load(Ordering::Acquire) as i64);
+            crate::verif::p1("fr_cur_ret", self.frontier.peek() as i64);
             return self.frontier.load(Ordering::Acquire);
         }
         #[cfg(grevm_verif)]
@@ -211,6 +212,12 @@ impl SchedulerContext {
     #[inline]
     pub(super) fn unconfirmed_timestamp(&self, index: usize) -> usize {
         self.unconfirmed_timestamps[index].load(Ordering::Acquire)
+    }
+
+    /// The same value without a hook point, for the hook that reports it.
+    #[cfg(grevm_verif)]
+    pub(super) fn verif_unconfirmed_timestamp(&self, index: usize) -> usize {
+        self.unconfirmed_timestamps[index].peek()
     }
 
     #[inline]
